@@ -1,4 +1,5 @@
 import PB.Model.Db
+import PB.Model.DbInj
 /-
 Line protocol of the C02 / C03 drivers: parsing of op lines, canonical printing of results, and the
 multi-interface system state (one shared controller storage, per-interface caches, subscriptions).
@@ -242,6 +243,17 @@ structure Sys where
   store : Store := []
   ifs : List Iface := []
   subs : List Sub := []
+  /-- seconds the case's clock has been advanced by `waitsec` -/
+  dt : Int := 0
+  /-- further databases of the case (`addcfg` / `usecfg`): configuration and content while not in use -/
+  parked : List (Cfg × Store) := []
+  /-- the case's database is an injected runtime registry (`rtinit`); `store` is what its provider holds -/
+  inj : Bool := false
+  /-- log of the records the provider's `Set` received since the last `rtsets` -/
+  sets : List Rec := []
+
+/-- The time of the next operation. -/
+def Sys.now (s : Sys) : Int := T + s.dt
 
 def Sys.iface (s : Sys) (id : String) : Option Iface := s.ifs.find? (·.id == id)
 
@@ -276,10 +288,15 @@ def Sys.exec (s : Sys) (id : String) (op : Op) : Sys × String :=
   match s.iface id with
   | none => (s, "bad-op")
   | some i =>
-    let st : ISt := { store := s.store, cache := i.cache, wcache := i.wcache, notes := [] }
-    let (st', out) := step s.cfg i.opts st op T
-    let s' := { s with store := st'.store, subs := deliver s.subs st'.notes }
-    (s'.setIface { i with cache := st'.cache, wcache := st'.wcache }, showOut out)
+    match s.inj with
+    | true =>
+      let (st', out) := Inj.step i.opts { prov := s.store } op s.now
+      ({ s with store := st'.prov, sets := s.sets ++ st'.sets, subs := deliver s.subs st'.notes }, showOut out)
+    | false =>
+      let st : ISt := { store := s.store, cache := i.cache, wcache := i.wcache, notes := [] }
+      let (st', out) := step s.cfg i.opts st op s.now
+      let s' := { s with store := st'.store, subs := deliver s.subs st'.notes }
+      (s'.setIface { i with cache := st'.cache, wcache := st'.wcache }, showOut out)
 
 def parseBackend (s : String) : Option Backend :=
   match s with
@@ -327,14 +344,17 @@ def handle (s : Sys) (line : String) : Sys × String :=
     (match s.iface id with
      | some i =>
        let st : ISt := { store := s.store, cache := i.cache, wcache := i.wcache, notes := [] }
-       (match getRecord s.cfg i.opts st k T with
+       (match getRecord s.cfg i.opts st k s.now with
         | (.error e, st1) =>
           ((({ s with store := st1.store, subs := deliver s.subs st1.notes } : Sys).setIface
               { i with cache := st1.cache, wcache := st1.wcache }), errStr e)
         | (.ok r, st1) =>
-          let (st2, out) := ifPut s.cfg i.opts st1 r T false
-          ((({ s with store := st2.store, subs := deliver s.subs st2.notes } : Sys).setIface
-              { i with cache := st2.cache, wcache := st2.wcache }), showOut out))
+          (match s.inj with
+           | true => s.exec id (.put r)
+           | false =>
+             let (st2, out) := ifPut s.cfg i.opts st1 r s.now false
+             ((({ s with store := st2.store, subs := deliver s.subs st2.notes } : Sys).setIface
+                 { i with cache := st2.cache, wcache := st2.wcache }), showOut out)))
      | none => (s, "bad-op"))
   | ["setabs", id, k, t] => (match parseTs t with | some t => s.exec id (.setAbs k t) | none => (s, "bad-op"))
   | ["setrel", id, k, d] => (match d.toInt? with | some d => s.exec id (.setRel k d) | none => (s, "bad-op"))
@@ -353,7 +373,7 @@ def handle (s : Sys) (line : String) : Sys × String :=
         | none => (s, "bad-op")
         | some b =>
           if !i.opts.all then (s, "denied")
-          else if !s.cfg.backend.hasBatch then (s, "notimpl")
+          else if !s.cfg.backend.hasBatch || s.inj then (s, "notimpl")
           else (s.setIface { i with batch := some (b ++ [r]) }, "ok"))
      | _, _ => (s, "bad-op"))
   | ["pmputx", id] =>
@@ -363,7 +383,7 @@ def handle (s : Sys) (line : String) : Sys × String :=
         | none => (s, "bad-op")
         | some _ =>
           if !i.opts.all then (s, "denied")
-          else if !s.cfg.backend.hasBatch then (s, "notimpl")
+          else if !s.cfg.backend.hasBatch || s.inj then (s, "notimpl")
           else (s, "outofscope"))
      | none => (s, "bad-op"))
   | ["pmend", id] =>
@@ -381,16 +401,52 @@ def handle (s : Sys) (line : String) : Sys × String :=
   | ["purge", id, p, c] => (match parseQuery p c with | some q => s.exec id (.purge q) | none => (s, "bad-op"))
   | ["maintain", t] =>
     (match parseTs t with
-     | some t => ({ s with store := maintainN 6 s.cfg s.store T t }, "ok")
+     | some t => if s.inj then (s, "ok") else ({ s with store := maintainN 6 s.cfg s.store s.now t }, "ok")
      | none => (s, "bad-op"))
-  | ["gmaintain"] => ({ s with store := maintainN 6 s.cfg s.store T T }, "ok")
+  | ["gmaintain"] => if s.inj then (s, "ok") else ({ s with store := maintainN 6 s.cfg s.store s.now s.now }, "ok")
   | ["dump"] => (s, showDump s.store)
   | ["iter", n, e, _forced] =>
     -- the iterator hand-over: the consumer drains all n records and then sees the producer's error
     (match n.toNat?, parseBool e with
      | some n, some e => (s, s!"ok {n} err=" ++ (if e then "E" else "nil"))
      | _, _ => (s, "bad-op"))
-  | ["rtinit"] => (s, "ok")
+  | ["rtinit"] => ({ s with inj := true, store := [], sets := [] }, "ok")
+  | ["rtinit", sh] =>
+    -- the case's database becomes an injected runtime registry with one provider; the argument is the
+    -- ShadowDelete flag of the registration, which `InjectDatabase` does not look at
+    (match parseBool sh with
+     | some _ => ({ s with inj := true, store := [], sets := [] }, "ok")
+     | none => (s, "bad-op"))
+  | ["rtsets"] =>
+    -- what the provider's `Set` received since the last `rtsets`, in order
+    ({ s with sets := [] }, showRecs s.sets)
+  | ["rtpush", k] =>
+    -- the provider pushes its current record through the `PushFunc` it got from `Register`
+    (match s.inj, s.store.get k with
+     | true, some r => ({ s with subs := deliver s.subs [r] }, "ok")
+     | true, none => (s, "notfound")
+     | false, _ => (s, "bad-op"))
+  | ["addcfg", b, sh] =>
+    (match parseBackend b, parseBool sh with
+     | some b, some sh =>
+       let c : Cfg := { backend := b, shadow := sh }
+       ({ s with cfg := c, store := [], parked := (s.cfg, s.store) :: (s.parked.filter (fun x => x.1 != s.cfg && x.1 != c)) }, "ok")
+     | _, _ => (s, "bad-op"))
+  | ["usecfg", b, sh] =>
+    (match parseBackend b, parseBool sh with
+     | some b, some sh =>
+       let c : Cfg := { backend := b, shadow := sh }
+       if c == s.cfg then (s, "ok")
+       else (match s.parked.find? (fun x => x.1 == c) with
+         | some (_, st) =>
+           ({ s with cfg := c, store := st, parked := (s.cfg, s.store) :: (s.parked.filter (fun x => x.1 != s.cfg && x.1 != c)) }, "ok")
+         | none => (s, "bad-op"))
+     | _, _ => (s, "bad-op"))
+  | ["waitsec", n] =>
+    (match n.toNat? with
+     | some n => ({ s with dt := n }, "ok")
+     | none => (s, "bad-op"))
+  | ["clock"] => (s, s!"@+{s.dt}")
   | ["rtput", k, f, m, p] =>
     -- a record an injected runtime provider hands out as it is (no `Apply`, no storage representation)
     (match parseRec k f m p with
@@ -399,14 +455,14 @@ def handle (s : Sys) (line : String) : Sys × String :=
   | ["api", "get", k] =>
     (match s.iface "@api" with
      | some i =>
-       (match (getRecord s.cfg i.opts { store := s.store } k T).1 with
+       (match (getRecord s.cfg i.opts { store := s.store } k s.now).1 with
         | .ok r => if r.form = .raw then (s, "err-format") else (s, "ok " ++ showRecNoMeta r)
         | .error e => (s, errStr e))
      | none => (s, "bad-op"))
   | ["api", "query", p, c] =>
     (match s.iface "@api", parseQuery p c with
      | some i, some q =>
-       (match (ifQuery i.opts { store := s.store } q T).2 with
+       (match (ifQuery i.opts { store := s.store } q s.now).2 with
         | .recs rs =>
           let l := (sortRecs (rs.filter (fun r => r.form != .raw))).map showRecNoMeta
           (s, (if l.isEmpty then "ok 0" else s!"ok {l.length} " ++ " ".intercalate l) ++ " err=nil")
@@ -422,7 +478,7 @@ def handle (s : Sys) (line : String) : Sys × String :=
     (match s.iface "@api", parsePrim p with
      | some i, some pv =>
        let pv := match pv with | .int n => Prim.flt (n * 1000) | x => x
-       (match (getRecord s.cfg i.opts { store := s.store } k T).1 with
+       (match (getRecord s.cfg i.opts { store := s.store } k s.now).1 with
         | .error e => (s, errStr e)
         | .ok r =>
           (match setField r.form r.fields a pv with
